@@ -216,6 +216,7 @@ func runC16(r *Result, d *drv.Driver, tier string, seed int64, replay string) {
 	defer c16ChainTrust(r)
 	defer c16Expiry(r)
 	defer c16LegacyCiphers(r)
+	defer c16CertificateSources(r)
 	defer c16TicketForgery(r)
 	r.Rule = "exhaustive peer matrix against the real crypto/tls: a peer with certificate in {none, valid, self-signed, other CA, expired, wrong host, its own self-signed or foreign-CA leaf followed by a copy of a genuine client leaf / genuine server leaf / the CA certificate, a genuine leaf followed by junk} x max TLS version in {1.0, 1.1, 1.2, 1.3}, plus a plaintext peer, a peer that connects and leaves without sending anything, and one that leaves after the first bytes of a TLS record, " +
 		"attacks a Server (with read/write timeouts 2s, and with none) whose config (weak prior contents) went through DefaultServerTLSConfig (alone; and, for a configuration shared by both roles, followed or preceded by DefaultClientTLSConfig) - observed: session-auth / request-auth / handler invocations and whether a KMIP response came back; and a TLS server with each certificate x version impersonates towards a Client prepared by DefaultClientTLSConfig - observed: Connect result and application bytes received. Expected outcome = the model's handshake predicate. Plus client sequences: a trusting Client first, then a Client trusting only another CA against the same endpoint (TLS 1.2 and 1.3); a Server started by ListenAndServe whose own certificate chain (leaf + issuing CA, as servers are usually configured) comes from another CA than the one its clients must chain to: clients with a certificate from the client CA / from the server's issuing CA / self-signed / none (TLS 1.2 and 1.3, first and second start on the same configuration); and an outsider presenting a session ticket forged with keys the library itself yields for the server's public chain (ListenAndServe path). distinct = one per matrix cell"
@@ -828,6 +829,99 @@ func c16LegacyCiphers(r *Result) {
 					Expect: "sessionAuth=0 requestAuth=0 handler=0, no response", Actual: fmt.Sprintf("%s response=%v err=%v", ev, resp, err)})
 			}
 			_ = gi
+		}
+	}
+}
+
+// c16CertificateSources: a tls.Config need not carry its certificate in Certificates - GetCertificate (the usual way to rotate
+// certificates) and GetConfigForClient serve as well, and tls.Listen accepts both. Prepared by DefaultServerTLSConfig with a
+// client-CA pool and started through ListenAndServe, such a Server is a TLS server like any other: a plaintext peer, a TLS
+// peer without certificate and one with a self-signed certificate get nothing; a peer with a certificate of the pool is served.
+func c16CertificateSources(r *Result) {
+	ca := tlsm.NewCA("c16-src-ca")
+	serverCert := tlsm.Leaf(ca, tlsm.LeafOpts{Host: "kmip.test"})
+	valid := tlsm.Leaf(ca, tlsm.LeafOpts{Host: "client.test", Client: true})
+	selfSigned := tlsm.Leaf(ca, tlsm.LeafOpts{Host: "client.test", SelfSigned: true, Client: true})
+	for _, source := range []string{"GetCertificate", "GetConfigForClient"} {
+		cfg := &tls.Config{ClientCAs: ca.Pool}
+		switch source {
+		case "GetCertificate":
+			cfg.GetCertificate = func(*tls.ClientHelloInfo) (*tls.Certificate, error) { return &serverCert, nil }
+			kmip.DefaultServerTLSConfig(cfg)
+		default:
+			inner := &tls.Config{Certificates: []tls.Certificate{serverCert}, ClientCAs: ca.Pool}
+			kmip.DefaultServerTLSConfig(inner)
+			cfg.GetConfigForClient = func(*tls.ClientHelloInfo) (*tls.Config, error) { return inner, nil }
+			kmip.DefaultServerTLSConfig(cfg)
+		}
+		var sa, calls int32
+		s := &kmip.Server{Addr: freeAddr(), TLSConfig: cfg, ReadTimeout: 2 * time.Second, WriteTimeout: 2 * time.Second}
+		s.SessionAuthHandler = func(c net.Conn) (interface{}, error) { atomic.AddInt32(&sa, 1); return nil, nil }
+		s.Handle(kmip.OPERATION_ACTIVATE, func(ctx *kmip.RequestContext, item *kmip.RequestBatchItem) (interface{}, error) {
+			atomic.AddInt32(&calls, 1)
+			return kmip.ActivateResponse{UniqueIdentifier: "x"}, nil
+		})
+		init := make(chan struct{})
+		ret := make(chan error, 1)
+		go func() { ret <- s.ListenAndServe(init) }()
+		select {
+		case <-init:
+		case e := <-ret:
+			r.find(Finding{Kind: "disagreement", What: "ListenAndServe refused a configuration tls.Listen accepts (harness or library)", Input: source, Actual: fmt.Sprint(e)})
+			continue
+		}
+		req := kmip.Request{Header: kmip.RequestHeader{Version: kmip.ProtocolVersion{Major: 1, Minor: 4}, BatchCount: 1},
+			BatchItems: []kmip.RequestBatchItem{{Operation: kmip.OPERATION_ACTIVATE, RequestPayload: kmip.ActivateRequest{UniqueIdentifier: "a"}}}}
+		exchange := func(c net.Conn) bool {
+			_ = c.SetDeadline(time.Now().Add(2 * time.Second))
+			if e := kmip.NewEncoder(c).Encode(&req); e != nil {
+				return false
+			}
+			var resp kmip.Response
+			return kmip.NewDecoder(c).Decode(&resp) == nil && len(resp.BatchItems) == 1
+		}
+		for _, peer := range []string{"plaintext", "TLS without certificate", "TLS with a self-signed certificate", "TLS with a certificate of the pool"} {
+			key := fmt.Sprintf("ListenAndServe on a configuration whose certificate comes from %s (Certificates empty), peer: %s", source, peer)
+			crumb("C16 " + key)
+			r.eval(key, true)
+			atomic.StoreInt32(&sa, 0)
+			atomic.StoreInt32(&calls, 0)
+			served := false
+			if peer == "plaintext" {
+				if c, e := net.Dial("tcp", s.Addr); e == nil {
+					served = exchange(c)
+					c.Close()
+				}
+			} else {
+				ccfg := &tls.Config{RootCAs: ca.Pool, ServerName: "kmip.test", MinVersion: tls.VersionTLS12}
+				switch peer {
+				case "TLS with a self-signed certificate":
+					ccfg.GetClientCertificate = func(*tls.CertificateRequestInfo) (*tls.Certificate, error) { return &selfSigned, nil }
+				case "TLS with a certificate of the pool":
+					ccfg.Certificates = []tls.Certificate{valid}
+				}
+				if c, e := tls.Dial("tcp", s.Addr, ccfg); e == nil {
+					served = exchange(c)
+					c.Close()
+				}
+			}
+			time.Sleep(30 * time.Millisecond)
+			obs := fmt.Sprintf("sessionAuth=%d handler=%d response=%v", atomic.LoadInt32(&sa), atomic.LoadInt32(&calls), served)
+			want := peer == "TLS with a certificate of the pool"
+			if !want && obs != "sessionAuth=0 handler=0 response=false" {
+				r.find(Finding{Kind: "violation", What: "KMIP was served to a peer that did not complete a TLS 1.2+ handshake with a certificate of the client-CA pool", Input: key, Expect: "sessionAuth=0 handler=0 response=false", Actual: obs})
+			}
+			if want && !served {
+				r.find(Finding{Kind: "disagreement", What: "a client with a certificate of the pool was not served (crypto/tls assumption or harness)", Input: key, Expect: "served", Actual: obs})
+			}
+			r.Stats["certificate-source-cells"]++
+		}
+		ctx, cancel := context.WithTimeout(context.Background(), 3*time.Second)
+		_ = s.Shutdown(ctx)
+		cancel()
+		select {
+		case <-ret:
+		case <-time.After(3 * time.Second):
 		}
 	}
 }
